@@ -121,6 +121,36 @@ type gframe struct {
 	seed int
 }
 
+// execTm: tm <tidhex> <nodehex> -- the TargetReady payload through the real encoder and decoder
+func execTm(toks []string) string {
+	t, n, err := crossnode.DecodeTargetReadyMessage(crossnode.EncodeTargetReadyMessage(string(vc.UnHex(toks[1])), string(vc.UnHex(toks[2]))))
+	if err != nil {
+		return "invalid"
+	}
+	return "ok " + vc.Hex([]byte(t)) + " " + vc.Hex([]byte(n))
+}
+
+func genTm(r *vc.Rand, thorough bool) []caseLine {
+	var out []caseLine
+	ids := [][]byte{[]byte("tcp-tunnel-1759012345678901234-8080"), []byte("udp-tunnel-1759012345678901234-53"), {}, []byte("a"),
+		[]byte("0123456789abcdef0123456789abcdef"), []byte("a|b"), []byte("|"), []byte("x\x00y"), []byte("世界-tunnel")}
+	nodes := [][]byte{[]byte("node-1"), {}, []byte("n|1"), []byte("||"), []byte("node-0001-aaaaaaaaaaaaaaaaaaaaaaaaaaaaaaaa")}
+	n := 40
+	if thorough {
+		n = 400
+	}
+	for _, t := range ids {
+		for _, nd := range nodes {
+			out = append(out, caseLine{text: "tm " + vc.Hex(t) + " " + vc.Hex(nd), dkey: "tm" + string(t) + "/" + string(nd), count: []string{"tm"}})
+		}
+	}
+	for i := 0; i < n; i++ {
+		t, nd := r.Bytes(r.Intn(40)), r.Bytes(r.Intn(20))
+		out = append(out, caseLine{text: "tm " + vc.Hex(t) + " " + vc.Hex(nd), dkey: fmt.Sprintf("tm%x/%x", t, nd), count: []string{"tm"}})
+	}
+	return out
+}
+
 // execRt: rt <tail> fr <n> (<idhex> <ty> <len> <seed>)*n ch <k> sizes
 func execRt(toks []string) string {
 	tailErr := toks[1] == "err"
@@ -271,6 +301,14 @@ func genDec(r *vc.Rand, thorough bool) []caseLine {
 			}
 			s := encFrame(vc.Pick(r, someIDs), vc.Pick(r, someTypes), l, genBytes(avail, r.Intn(256)))
 			out = append(out, decCase(s, randSizes(r, len(s), 12), r.Intn(3) == 0, "length-field"))
+		}
+	}
+	// (2b) uint32 wrap windows: the top values of the length field (any "length + header" arithmetic wraps
+	//      there) and the values around 2^31 and 2^16 multiples
+	for _, base := range []uint32{0xffffffff, 0x80000000 + 40, 0x00020000 + 40, 0x01000000 + 40} {
+		for d := uint32(0); d < 80; d++ {
+			s := encFrame(vc.Pick(r, someIDs), vc.Pick(r, someTypes), base-d, genBytes(int(d%7), 3))
+			out = append(out, decCase(s, randSizes(r, len(s), 4), d%5 == 0, "length-wrap"))
 		}
 	}
 	// (3) every type byte, every header byte position perturbed
